@@ -34,6 +34,10 @@ package cosmos
 //@ loop #1
 //@   invariant true
 //@   step[C13.svd.signed] res_VerifySignature_0
+// C10 (a transaction takes effect only when signed by every account it acts for): in the ordinary branch each signature
+// is checked against the account of ITS OWN signer, the i-th signature against the i-th signer (at a call site inside a
+// range body the header's rangeindex is still the previous index).
+//@   before[C10.svd.own] GetSignerAcc requires defined(res_GetSigners_0) && arg_addr == res_GetSigners_0[rangeindex + 1]
 //@ loop #2
 //@   invariant true
 
